@@ -3,6 +3,7 @@ package main
 import (
 	"bytes"
 	"encoding/json"
+	"strings"
 	"time"
 
 	"github.com/EdgeCast/vflow/sflow"
@@ -39,4 +40,41 @@ func cmdSflow(args []tok) string {
 		})
 	}
 	return "BADARGS"
+}
+
+func init() { commands["sflowseq"] = cmdSflowSeq }
+
+// sflowseq <payload>... : decode ALL datagrams first, keeping the decoded datagrams, and only then encode each of them
+// (what a decoded datagram holds must not live in storage that a later decode reuses)
+func cmdSflowSeq(args []tok) string {
+	return watchdog(10*time.Second, func() string {
+		var dgs []*sflow.SFDatagram
+		for _, a := range args {
+			if a.kind != 'b' {
+				return "BADARGS"
+			}
+			d := sflow.NewSFDecoder(bytes.NewReader(guarded(a.b)), nil)
+			dg, err := d.SFDecode()
+			if err != nil || (len(dg.Counters) < 1 && len(dg.Samples) < 1) {
+				dgs = append(dgs, nil)
+				continue
+			}
+			dgs = append(dgs, dg)
+		}
+		var outs []string
+		for _, dg := range dgs {
+			if dg == nil {
+				outs = append(outs, "NONE")
+				continue
+			}
+			dg.ColTime = 0
+			b, err := json.Marshal(dg)
+			if err != nil {
+				outs = append(outs, "MARSHAL-ERROR")
+			} else {
+				outs = append(outs, string(b))
+			}
+		}
+		return strings.Join(outs, " ## ")
+	})
 }
